@@ -634,7 +634,9 @@ class Share:
         if self._overrun_ok:
             # easy! this includes version number, sizes, and offsets
             want_it.add(0, 1024)
-            return
+            # but we still absolutely need the version number and the offset
+            # table: a share too short to hold them must be abandoned (see
+            # _do_loop), not asked for the missing bytes again and again
 
         # v1 has an offset table that lives [0x0,0x24). v2 lives [0x0,0x44).
         # To be conservative, only request the data that we know lives there,
